@@ -267,7 +267,9 @@ class _Enum:
         for combo in itertools.product(*[range(len(d)) for d in DIMS]):
             plat, mode, pinf, onb, ret, echo, unl, pe, npn = combo
             # order of draws in run_one
-            self.items.append([0, plat, mode, pinf, onb, ret, echo, unl, pe, npn, 0, 0])
+            # trailing zeros: the seeded-only dimensions stay at their simplest value (one version on
+            # SGX, device present, first delay / silence kind), so the case is exactly the listed one
+            self.items.append([0, plat, mode, pinf, onb, ret, echo, unl, pe, npn, 0, 0] + [0] * 8)
         if tier == "quick":
             # quick: a deterministic 1-in-8 slice of the product (the seeded part covers the rest)
             self.items = self.items[::8]
